@@ -56,10 +56,10 @@ FAMILIES = {
 
 def execute(ex: Execution, family: str, mode: str) -> tuple[Any, list[Any]]:
     mk, expected_result = FAMILIES[family]
-    with EngineExec(ex, RunConfig(pair_time=(mode in ("timeout", "timeout_hang")))) as e:
+    with EngineExec(ex, RunConfig(pair_time=(mode in ("timeout", "timeout_hang")), busy_ticks=(1 if mode == "timeout_busy" else 0))) as e:
         h = e.h
         cls = mk()
-        timeout = 10.0 if mode in ("timeout", "timeout_hang") else None
+        timeout = 10.0 if mode in ("timeout", "timeout_hang", "timeout_busy") else None
         hang = {"on": False}
         if mode.endswith("_hang"):
             # from an explorer-chosen point on, the steps that are running block for good: only timers can fire
@@ -80,7 +80,8 @@ def execute(ex: Execution, family: str, mode: str) -> tuple[Any, list[Any]]:
 
                 rec = hh.scheduled_due.get(id(tick))
                 if rec is not None and rec[1] is tick:
-                    marks["timeout_late_by"] = _t.time() - rec[0]
+                    # (a tick that kept the loop busy past the due time excuses exactly that much: timeout_busy programs)
+                    marks["timeout_late_by"] = _t.time() - max(rec[0], getattr(hh, "busy_until", 0.0))
                 # steps with live bodies at the moment the timeout is processed
                 marks["live_at_timeout"] = sorted(n for n, lst in hh.live.items() if lst)
                 marks["stop_processed_before_timeout"] = marks.get("stop_processed", False)
@@ -119,7 +120,7 @@ def execute(ex: Execution, family: str, mode: str) -> tuple[Any, list[Any]]:
             if marks.get("stop_processed_before_timeout"):
                 v.append(("finished_run_timed_out", w, "the StopEvent result tick was processed before the timeout tick, "
                                                        "yet the run failed with WorkflowTimeoutError"))
-            if mode not in ("timeout", "timeout_hang"):
+            if mode not in ("timeout", "timeout_hang", "timeout_busy"):
                 v.append(("unexpected_timeout", w, "timeout without a configured timeout"))
         elif isinstance(out[1], WorkflowCancelledByUser):
             cev = [x for x in pub if isinstance(x, WorkflowCancelledEvent)]
@@ -191,7 +192,7 @@ def execute(ex: Execution, family: str, mode: str) -> tuple[Any, list[Any]]:
                               {**w, "pending_delayed_retry_at_cancel": pending_retry},
                               f"resumed run ended {out2} (stuck={e.stuck}), expected result {expected_result!r}"))
         elif out[0] == "result":
-            if mode in ("timeout", "timeout_hang") and not marks.get("stop_processed"):
+            if mode in ("timeout", "timeout_hang", "timeout_busy") and not marks.get("stop_processed"):
                 v.append(("result_without_stop", w, "run returned a result but no StopEvent tick was seen"))
         else:
             v.append(("unexpected_outcome", w, f"{out}"))
@@ -204,8 +205,10 @@ def programs(tier: str) -> list[Program]:
     ps = []
     fams = ["chain2", "fan(2,2)", "retry_delay", "wait_retry"] + ([] if q else ["chain3", "fan(3,2)"])
     for fam in fams:
-        for mode in ("timeout", "cancel", "cancel_resume", "cancel_resume_x2", "timeout_hang", "cancel_resume_timeout_hang"):
-            if fam == "wait_retry" and mode != "timeout":
+        for mode in ("timeout", "cancel", "cancel_resume", "cancel_resume_x2", "timeout_hang", "cancel_resume_timeout_hang", "timeout_busy"):
+            if fam == "wait_retry" and mode not in ("timeout", "timeout_busy"):
+                continue
+            if mode == "timeout_busy" and fam not in ("chain2", "retry_delay", "wait_retry"):
                 continue
             if mode.endswith("_hang") and fam not in ("chain2", "fan(2,2)"):
                 continue
@@ -222,7 +225,7 @@ RULE = ("timeout (timer firing) or cancel_run arriving at every quiescent point 
         "the timeout tick acted on at the virtual instant it was scheduled for (also with a waiter timeout and a retry delay pending), "
         "no timeout after a processed StopEvent, WorkflowCancelledEvent then WorkflowCancelledByUser, no body "
         "entered after the cancel tick, ctx.to_dict() works and the resumed run completes with the reference "
-        "result - also when the resumed run is itself cancelled at any point and resumed a second time; in the *_hang programs the running steps "
+        "result - also when the resumed run is itself cancelled at any point and resumed a second time; in the timeout_busy programs one tick keeps the loop busy until after the next scheduled wake-up (the timeout must then be acted on as soon as the loop is free); in the *_hang programs the running steps "
         "block for good from an explorer-chosen point on, and the (fresh or resumed) run with a timeout must then end with WorkflowTimeoutError; non-trivial = at least one schedule deviation")
 
 
